@@ -73,9 +73,6 @@ theorem coeffs_old_mismatch : coeffsLen 8 = 10 ∧ min 9 (modeCount 8) = 9 := by
 section Perfect
 variable {K : Type} [Field K] [LinearOrder K] [IsStrictOrderedRing K] {n : ℕ}
 
-/-- The all-zero field. -/
-def zeroVec (K : Type) [OfNat K 0] (n : ℕ) : Vector K n := Vector.ofFn fun _ => 0
-
 theorem toFn_zeroVec : toFn (zeroVec K n) = 0 := by
   unfold zeroVec; rw [toFn_ofFn]; rfl
 
@@ -378,5 +375,46 @@ example : let p : MSParams := ⟨32, 32, 1/32, 1/32, 1024, 4, 32⟩
   decide +kernel
 
 end MultiScale
+
+/-! ## the perfect coronagraph for an arbitrary orthonormal family (real or complex)
+
+What the code literally computes is `E − T (T⁺ E)` with `T` the matrix returned by QR.  For *any*
+finite orthonormal family `v` (the columns of `T`; `T⁺ = Tᴴ`) in *any* real or complex
+inner-product space — so also for complex apertures — the three clauses hold; the middle one is
+Bessel's inequality.  "QR returns orthonormal columns whose span contains the modes" is the
+modelled assumption; the correspondence checks its consequences on every run. -/
+section Abstract
+variable {𝕜 E ι : Type*} [RCLike 𝕜] [NormedAddCommGroup E] [InnerProductSpace 𝕜 E] [Fintype ι]
+
+theorem orthonormal_nulls_span {v : ι → E} (hv : Orthonormal 𝕜 v) (x : E)
+    (hx : x ∈ Submodule.span 𝕜 (Set.range v)) : projectOut (𝕜 := 𝕜) v x = 0 := by
+  obtain ⟨c, rfl⟩ := (Submodule.mem_span_range_iff_exists_fun 𝕜).1 hx
+  unfold projectOut
+  simp only [hv.inner_right_fintype, sub_self]
+
+theorem orthonormal_idempotent {v : ι → E} (hv : Orthonormal 𝕜 v) (x : E) :
+    projectOut (𝕜 := 𝕜) v (projectOut (𝕜 := 𝕜) v x) = projectOut (𝕜 := 𝕜) v x := by
+  have h : ∀ i, inner 𝕜 (v i) (projectOut (𝕜 := 𝕜) v x) = 0 := inner_projectOut hv x
+  generalize projectOut (𝕜 := 𝕜) v x = r at h ⊢
+  unfold projectOut
+  simp only [h, zero_smul, Finset.sum_const_zero, sub_zero]
+
+theorem orthonormal_power_le {v : ι → E} (hv : Orthonormal 𝕜 v) (x : E) :
+    ‖projectOut (𝕜 := 𝕜) v x‖ ≤ ‖x‖ := by
+  set r := projectOut (𝕜 := 𝕜) v x with hr
+  set y := ∑ i, inner 𝕜 (v i) x • v i with hy
+  have hxy : x = y + r := by rw [hr]; unfold projectOut; rw [← hy]; abel
+  have horth : inner 𝕜 y r = 0 := by
+    rw [hy, sum_inner]
+    apply Finset.sum_eq_zero
+    intro i _
+    rw [inner_smul_left, hr, inner_projectOut hv, mul_zero]
+  have hp := norm_add_sq_eq_norm_sq_add_norm_sq_of_inner_eq_zero y r horth
+  rw [← hxy] at hp
+  have h1 : ‖r‖ * ‖r‖ ≤ ‖x‖ * ‖x‖ := by nlinarith [mul_self_nonneg ‖y‖]
+  by_contra hlt
+  push Not at hlt
+  nlinarith [norm_nonneg r, norm_nonneg x]
+end Abstract
 
 end HcipyVerif.Coronagraph
